@@ -36,12 +36,13 @@ def gen_tree(rng, *, depth=3, links=True, maxentries=14, names="simple"):
         used.add(rel)
         k = rng.random()
         if k < 0.3:
-            mode = rng.choice([0o500, 0o700, 0o755, 0o750, 0o555, 0o777, 0o711])
+            mode = rng.choice([0o500, 0o700, 0o755, 0o750, 0o555, 0o777, 0o711, 0o577, 0o526, 0o705])
             entries.append((rel, "dir", mode))
             dirs.append(rel)
         elif k < 0.85 or not links or (not files and len(dirs) < 2):
             size = rng.choice([0, 0, 1, 10, 100, 3000, rng.randrange(0, 20000)])
-            mode = rng.choice([0o400, 0o600, 0o644, 0o640, 0o444, 0o755, 0o777, 0o700])
+            # incl. modes whose owner bits are weaker than the group/other bits (owner cannot write, others can)
+            mode = rng.choice([0o400, 0o600, 0o644, 0o640, 0o444, 0o755, 0o777, 0o700, 0o466, 0o577, 0o402, 0o426, 0o451, 0o604, 0o406])
             entries.append((rel, "file", (arclib.gen_content(rng, size), mode)))
             files.append(rel)
         else:
